@@ -894,6 +894,26 @@ impl DynObject {
     /// `to_string()` and `format!()` on a value would panic.  Such an object renders as
     /// whatever it managed to write; a failure of the formatter is still reported.
     pub(crate) fn render_guarded(&self, f: &mut fmt::Formatter<'_>) -> fmt::Result {
+        /// Forwards to the formatter and remembers if the formatter failed.
+        struct Track<'a, 'b> {
+            f: &'a mut fmt::Formatter<'b>,
+            failed: bool,
+        }
+
+        impl fmt::Write for Track<'_, '_> {
+            fn write_str(&mut self, s: &str) -> fmt::Result {
+                let rv = self.f.write_str(s);
+                self.failed |= rv.is_err();
+                rv
+            }
+
+            fn write_char(&mut self, c: char) -> fmt::Result {
+                let rv = self.f.write_char(c);
+                self.failed |= rv.is_err();
+                rv
+            }
+        }
+
         struct Raw<'a>(&'a DynObject);
 
         impl fmt::Display for Raw<'_> {
@@ -902,17 +922,21 @@ impl DynObject {
             }
         }
 
-        match self.render(f) {
-            Ok(()) => Ok(()),
-            Err(err) => {
-                // find out who failed: rendering into a string cannot fail because of the sink
-                let mut probe = String::new();
-                if fmt::write(&mut probe, format_args!("{}", Raw(self))).is_err() {
-                    Ok(())
-                } else {
-                    Err(err)
-                }
-            }
+        // the object writes through the tracker: only that tells a failure of the
+        // formatter (which has to stop everything, for instance a broken output
+        // stream) from a failure of the object itself.  Rendering a second time
+        // to find out is not an option: the object might fail both times, and
+        // rendering can have side effects.
+        let alternate = f.alternate();
+        let mut track = Track { f, failed: false };
+        let rv = if alternate {
+            fmt::write(&mut track, format_args!("{:#}", Raw(self)))
+        } else {
+            fmt::write(&mut track, format_args!("{}", Raw(self)))
+        };
+        match rv {
+            Err(err) if track.failed => Err(err),
+            _ => Ok(()),
         }
     }
 }
